@@ -671,7 +671,7 @@ def _apply(m, op):
         del m.knobs[name]
         m.order.remove(("k", name))
         return None
-    if kind == "load":
+    if kind in ("load", "copyfrom"):
         _, pairs, overwrite = op[:3]
         if not pairs:
             raise ModelReject("empty load")
